@@ -875,6 +875,7 @@ def parse_google(
     if (
         returns_type_in_property_summary
         and sections
+        and sections[0].kind is DocstringSectionKind.text
         and docstring.parent
         and docstring.parent.is_attribute
         and "property" in docstring.parent.labels
